@@ -154,3 +154,22 @@ PROPS["C02"]["not_covered"] = ["split_os_argument beyond the bounds of K03 (ASCI
 PROPS["C02"]["claim"] = PROPS["C02"]["explanation"] = (
     "value pick-up after tokenisation is proved (take_arg returns exactly the payload of the item following the leftmost matching name, marks exactly those two items; `adjacent` accepts exactly the same-item spellings); "
     "the byte-level tokenizer split_os_argument is checked by Kani within bounds only (all ASCII strings of length 2 and 3, `-c=v`/`--c=v` with a two-byte character c and any byte v, `-cw=v`).")
+PROPS["C02"]["not_covered"] = ["split_os_argument beyond the bounds of K03 (ASCII <= 3 bytes, fixed non-ASCII families)", "disambiguate_short (K02 dropped)", "parse_os_str pass-through"]
+PROPS["C02"]["claim"] = PROPS["C02"]["explanation"] = PROPS["C02"]["explanation"] + " Meta::collect_shorts (the short-name tables the tokenizer disambiguates clusters with) is proved to collect every reachable flag/argument item's short names."
+
+
+def scan_interior_state(repo):
+    """C04 purity, assumption check (not a proof): no interior mutability or global mutable state in src/ outside tests"""
+    import glob, os, re
+    pat = re.compile(r"\b(static\s+mut|RefCell|Cell<|Mutex|RwLock|Atomic[A-Z]\w*|thread_local!|OnceCell|OnceLock|lazy_static)\b")
+    hits = []
+    files = 0
+    for f in sorted(glob.glob(os.path.join(repo, "src", "**", "*.rs"), recursive=True)):
+        if f.endswith("tests.rs") or "/docs2/" in f or f.endswith("_documentation.rs"):
+            continue
+        files += 1
+        for n, l in enumerate(open(f, encoding="utf-8"), 1):
+            code = l.split("//")[0]
+            if pat.search(code):
+                hits.append("%s:%d: %s" % (os.path.relpath(f, repo), n, code.strip()[:80]))
+    return {"files_scanned": files, "hits": hits, "note": "textual scan; an assumption check, not a proof"}
